@@ -173,7 +173,15 @@ def main(argv=None):
 
     env.ensure_deps()
     home = env.ensure_home()
-    childenv = env.child_env(home, {"VERIF_SEED": str(a.seed), "VERIF_TIER": a.tier})
+    # ANDES makes a log directory under the temp dir in every process: keep those out of /tmp and remove them with the run
+    tmpd = os.path.join(env.WORK, "tmp", str(os.getpid()))
+    os.makedirs(tmpd, exist_ok=True)
+    import atexit
+    import shutil
+    atexit.register(shutil.rmtree, tmpd, True)
+    import tempfile
+    tempfile.tempdir = tmpd          # the driver itself imports ANDES for some case lists
+    childenv = env.child_env(home, {"VERIF_SEED": str(a.seed), "VERIF_TIER": a.tier, "TMPDIR": tmpd})
     sys.path.insert(0, env.DEPS)
     mod = importlib.import_module("vf.checks." + prop.lower())
 
